@@ -64,7 +64,7 @@ class FileBasedCollectionMetadata(CollectionMetadata):
 
     def __init__(self, cp=None, save=None) -> None:
         if cp is None:
-            cp = configparser.ConfigParser()
+            cp = configparser.ConfigParser(interpolation=None)
         self._configparser = cp
         self._save_cb = save
 
@@ -75,7 +75,7 @@ class FileBasedCollectionMetadata(CollectionMetadata):
 
     @classmethod
     def from_file(cls, f):
-        cp = configparser.ConfigParser()
+        cp = configparser.ConfigParser(interpolation=None)
         cp.read_file(f)
         return cls(cp)
 
